@@ -151,6 +151,10 @@ def entry_points():
         return out
 
     add("tables: area sweep", area_sweep)
+    # questions about rows / cells at and past the end of the table
+    add("tables: reads past the end", lambda d: [(t.get_row_values(t.height), t.get_row_values(t.height + 2), t.is_row_empty(t.height + 1), t.get_row_sub_elements(t.height),
+                                                  t.get_value((t.width + 1, t.height + 1)), t.get_cell((0, t.height)).get_value(), t.get_row(t.height + 3).get_values(),
+                                                  t.get_column_values(t.width + 1), t.is_column_empty(t.width), t.size) for t in _tables(d)])
 
     # the same questions to ONE Table object in two orders: the answer to a question must not depend on
     # which questions came before it
